@@ -249,3 +249,17 @@ def ring_pdag(seed_parts):
             out[v] |= 1 << w
             out[w] |= 1 << v
     return out
+
+
+def scribble_related(U, A, rec, names):
+    """Call related routines on (a copy of) the same graph and overwrite their results in place, as a caller may do with
+    arrays he was given.  Exceptions are ignored here (the routines are judged by their own checks)."""
+    for name in names:
+        try:
+            fn = getattr(U, name)
+            r = fn(len(A)) if name in ("chain_graph_MEC", "chain_graph") else fn(np.array(A, copy=True))
+            if isinstance(r, np.ndarray) and r.size and r.flags.writeable:
+                r[...] = 7 if r.dtype != bool else True
+                rec.count("history:related-result-overwritten:" + name)
+        except Exception:
+            pass
